@@ -42,6 +42,13 @@ func (u *Unit) Opts() work.Cfg {
 	c.OnlyModels = b("onlyModels")
 	c.StructNameFromTitle = b("structNameFromTitle")
 	c.Tags = []string{"json", "yaml", "mapstructure"}
+	if l, ok := o["capitalizations"].([]any); ok {
+		for _, x := range l {
+			if s, ok := x.(string); ok {
+				c.Capitalizations = append(c.Capitalizations, s)
+			}
+		}
+	}
 	return c
 }
 
